@@ -33,6 +33,8 @@ pub type Call2<'a> = &'a dyn Fn(TestRequest, TestRequest) -> ((u16, Vec<u8>), (u
 /// One server flavour: its state, its requests, the sequential reference and the way to the handlers.
 pub trait Flavour: 'static + Sync + Clone + Debug {
     type App: Send + 'static;
+    /// the lock around the state, as the server module's own alias names it (Mutex today)
+    type State: shim::Peek<Self::App> + Send + Sync + 'static;
     type Req: Clone + Debug + Serialize + DeserializeOwned + Send + Sync + 'static;
     const NAME: &'static str;
     const JURA: bool;
@@ -41,7 +43,7 @@ pub trait Flavour: 'static + Sync + Clone + Debug {
     fn direct(s: &mut Self::App, r: &Self::Req) -> String;
     fn digest(s: &Self::App) -> u64;
     /// Build the in-memory actix service of the calling thread over the shared state and run `body`.
-    fn serve(data: web::Data<shim::Mutex<Self::App>>, body: &mut dyn FnMut(Call, Call2));
+    fn serve(data: web::Data<Self::State>, body: &mut dyn FnMut(Call, Call2));
     /// The request for the real handler, and the canonical text of its response.
     fn request(r: &Self::Req) -> TestRequest;
     fn decode(r: &Self::Req, status: u16, body: &[u8]) -> String;
@@ -114,6 +116,7 @@ pub struct Uist;
 
 impl Flavour for Uist {
     type App = su::AppState;
+    type State = su::uistv1_server::UistState;
     type Req = Req;
     const NAME: &'static str = "e5-uist-threads";
     const JURA: bool = false;
@@ -178,7 +181,7 @@ impl Flavour for Uist {
         d.0
     }
 
-    fn serve(data: web::Data<shim::Mutex<su::AppState>>, body: &mut dyn FnMut(Call, Call2)) {
+    fn serve(data: web::Data<su::uistv1_server::UistState>, body: &mut dyn FnMut(Call, Call2)) {
         let app = block_on(test::init_service(
             App::new()
                 .app_data(data)
@@ -301,6 +304,7 @@ fn j_tick_text(has_next: bool, fills: &[rotala::exchange::jura_v1::Fill], orders
 
 impl Flavour for Jura {
     type App = sj::AppState;
+    type State = sj::jurav1_server::JuraState;
     type Req = JReq;
     const NAME: &'static str = "e5-jura-threads";
     const JURA: bool = true;
@@ -354,7 +358,7 @@ impl Flavour for Jura {
         d.0
     }
 
-    fn serve(data: web::Data<shim::Mutex<sj::AppState>>, body: &mut dyn FnMut(Call, Call2)) {
+    fn serve(data: web::Data<sj::jurav1_server::JuraState>, body: &mut dyn FnMut(Call, Call2)) {
         let app = block_on(test::init_service(
             App::new()
                 .app_data(data)
@@ -497,7 +501,7 @@ fn run_concurrent<F: Flavour>(case: &Case<F>, chooser: Chooser) -> RunOut {
     for r in &case.setup {
         F::direct(&mut st, r);
     }
-    let data: web::Data<shim::Mutex<F::App>> = web::Data::new(shim::Mutex::new(st));
+    let data: web::Data<F::State> = web::Data::new(<F::State as shim::Peek<F::App>>::make(st));
     let n = case.scripts.len();
     let sched = Sched::new(n, chooser);
     let events: Arc<StdMutex<Vec<Event>>> = Arc::new(StdMutex::new(Vec::new()));
@@ -544,10 +548,7 @@ fn run_concurrent<F: Flavour>(case: &Case<F>, chooser: Chooser) -> RunOut {
         sched.kick_off();
     });
     let (schedule, switches, gave_up) = sched.result();
-    let final_digest = {
-        let g = data.lock().unwrap();
-        F::digest(&g)
-    };
+    let final_digest = shim::Peek::peek(&**data, |st| F::digest(st));
     let mut ev = events.lock().unwrap().clone();
     ev.sort_by_key(|e| e.call);
     let p = panicked.lock().unwrap().clone();
